@@ -3,6 +3,7 @@ import AlgoVerif.Proofs.C02OA
 import AlgoVerif.Proofs.C02LinDel
 import AlgoVerif.Model.C02Hash
 import AlgoVerif.Proofs.C02Gen
+import AlgoVerif.Proofs.C02LinGen
 import AlgoVerif.Proofs.C02Pool
 /-!
 # C02 — the hash tables behave as a map for any hash function, options and history
@@ -366,3 +367,44 @@ theorem C02_generated_smallestPrimeLargerThan (n fuel : Nat) (hn : 1 ≤ n) (hf 
   exact Outcome.le.ok (C02_generated_smallestPrimeLargerThan_refines n fuel hf) (by simp [h])
 
 example : HashHelp.smallestPrimeLargerThan 67 32 = .ok 37 := by decide
+
+/-! ## the GENERATED `probe` / `Get` of `symboltable/linear_hash_table.go` (`Generated/C02LinGen.lean`)
+
+`probe`'s closure is converted by the translator into the record of its captured variables (`M, h1, i, next`) and the
+method `call` (extract/go2lean/closure.go); `Gen.ofLin` reads a table of the hand Model as the generated struct (entries as
+`Option (KeyValue K V)`, `eqKey` = equality; the hash function, `eqVal` and the two float32 load factors are arbitrary),
+`Gen.EnvOK m h j env`: the environment after `j` calls.  Helper lemmas: `Proofs/C02LinGen.lean`. -/
+
+/-- the probe sequence: `probe(key)` starts the environment at 0 calls, and the `j`-th call of the closure returns the hand
+Model's `Lin.probeIdx m h j` (`h & (M-1)` first, then `(h1 + j) % M`, computed on 64-bit words and converted to `int`),
+for every table size `0 < m < 2^32` and every `j < 2^32`. -/
+theorem C02_generated_linear_probe {K V : Type} [DecidableEq K] [Inhabited K] [Inhabited V]
+    (hash : K → UInt64) (eqVal : V → V → Bool) (a b : Go.F32) (t : LinTable K V) (key : K)
+    (hm0 : 0 < t.m) (hm : t.m < 2 ^ 32) :
+    EnvOK t.m (mix (hash key)) 0 (LinHT.linearHashTable.probe (ofLin hash eqVal a b t) key) ∧
+    ∀ (j : Nat) (env : LinHT.linearHashTable_probeEnv), EnvOK t.m (mix (hash key)) j env → j < 2 ^ 32 →
+      ∃ env', LinHT.linearHashTable_probeEnv.call env = .ok (env', ((Lin.probeIdx t.m (mix (hash key)) j : Nat) : Int)) ∧
+        EnvOK t.m (mix (hash key)) (j + 1) env' :=
+  ⟨probe_ok hash eqVal a b t key hm0 hm, fun j env he hj => call_ok t.m _ j env he hm0 hm hj⟩
+
+/-- `Get(key)`: with fuel `m` (one unit per inspected slot, as the hand Model has it) the generated function returns
+exactly what the hand Model's `Lin.get` returns — `(v, true)` for `some v`, `(zero, false)` for `none`, the same panic
+for a probe outside `entries`, the same `diverge` when `m` probes meet no nil slot. -/
+theorem C02_generated_linear_get {K V : Type} [DecidableEq K] [Inhabited K] [Inhabited V]
+    (hash : K → UInt64) (eqVal : V → V → Bool) (a b : Go.F32) (t : LinTable K V) (key : K)
+    (hm0 : 0 < t.m) (hm : t.m < 2 ^ 32) :
+    LinHT.linearHashTable.Get t.m (ofLin hash eqVal a b t) key = (Lin.get hash t key).map pairOf :=
+  Get_eq hash eqVal a b t key hm0 hm
+
+/-- `Size()` and `IsEmpty()` read the counter `n`. -/
+theorem C02_generated_linear_size {K V : Type} [DecidableEq K] [Inhabited K] [Inhabited V]
+    (hash : K → UInt64) (eqVal : V → V → Bool) (a b : Go.F32) (t : LinTable K V) :
+    LinHT.linearHashTable.Size (ofLin hash eqVal a b t) = t.n ∧
+    LinHT.linearHashTable.IsEmpty (ofLin hash eqVal a b t) = (t.n == 0) := ⟨rfl, rfl⟩
+
+-- the hypotheses hold of every table the constructor builds with a capacity below 2^32; the generated `Get` on the table
+-- of capacity 4 holding 6 ↦ 60 at slot 2 (hash = identity on `Nat` keys): found at the first probe of key 6
+example : (LinHT.linearHashTable.Get 4 (ofLin (V := Nat) (fun k : Nat => UInt64.ofNat k) (· == ·) ⟨0⟩ ⟨0⟩
+    ⟨#[none, none, some (6, 60), none], 4, 1, ⟨1, 8⟩, ⟨1, 2⟩⟩) 6) = .ok (60, true) :=
+  (C02_generated_linear_get (fun k : Nat => UInt64.ofNat k) (· == ·) ⟨0⟩ ⟨0⟩
+    (⟨#[none, none, some (6, 60), none], 4, 1, ⟨1, 8⟩, ⟨1, 2⟩⟩ : LinTable Nat Nat) 6 (by decide) (by decide)).trans (by decide)
